@@ -69,6 +69,25 @@ token-level mutations alone, M23 was missed by them):
   M21 process_Invert = process_Not (`~(a == 1)` accepted)                                   caught (parse)
   M22 process_Subscript returns the value (`a[0] == 1` accepted as `a == 1`)                caught (parse)
   M23 keyword arguments of any()/all() ignored (`a in any([1], x=2)` accepted)              caught (parse)
+Round 4.  `names` is "a mapping": every names mapping of exec / run / rerun / subst / cq is handed over as one of dict
+(15%), defaultdict(int / list / lambda), Counter, dict subclass with __missing__, ChainMap, ChainMap over a defaultdict,
+MappingProxyType, a bare collections.abc.Mapping, OrderedDict, UserDict (7.5-8% each; hash of the command, the model sees
+the bindings): an unbound name is a NameError for all of them and the caller's mapping has the same keys afterwards
+(else NAMES-MUTATED).  CatalogQuery stream (6% of the cases = 476 per quick run, session commands
+  cqset <name> <kind> <v>   catalog[name] = a new index (80% same kind, other docids/contents; 20% another kind)
+  cqdel <name>              del catalog[name]           (model: cfg delindex)
+  cqindex <docid> <v>       catalog.index_doc
+  cq q|c <names> <src>      ONE CatalogQuery object (.query / __call__) answers the expression string; the model
+                            resolves the names in what a fresh parse_query of the string gives on the catalog of THAT
+                            moment (or parses itself against that moment's names when the fresh parse raises); the tree is
+                            executed on a reference catalog that went through the same changes):
+the same 1-2 strings before and after 2-5 changes of what their index names denote; measured quick seed 0: 2661 cq
+answers, 1624 changes (replace same kind 904, other kind 150, delete 439, index_doc 131), the answer to the same string
+changed after 978 of them.  Seeded C10_G (names[name] in try/except KeyError) and C10_H (CatalogQuery caches the parsed
+tree per string) were missed before and are caught now.  Further mutations of these classes (VERIF_REPO=/var/tmp/mut_s6/
+<X>, deleted afterwards), VIOLATION on quick seed 0:
+  D  _get_value: `result = names.get(name); if result is None: raise NameError` (a name bound to None; names=None)  caught
+  E  CatalogQuery.__init__ snapshots dict(catalog) and parses against the snapshot (replace / delete / re-add)      caught
 """
 import ast
 import copy
@@ -2035,14 +2054,14 @@ def features(case, outs):
     first_parse = True
     phase = "initial"
     prev_answer = {}
+    if cmds and cmds[0][0] == "cq":
+        f.append("stream:catalogquery")
     for c, o in zip(cmds, outs):
         op = c[0]
         npos = {"exec": 1, "run": 1, "subst": 1, "cq": 2, "rerun": 4}.get(op)
         if npos is not None and str(c[npos]) != "nonames":
             f.append("names-mapping:" + names_kind(c, 0))
         if op in ("cqset", "cqdel", "cqindex"):
-            if f == []:
-                f.append("stream:catalogquery")
             phase = {"cqdel": "after-del", "cqindex": "after-index_doc"}.get(op) or (
                 "after-replace-same-kind" if c[2] == KIND[unhx(str(c[1]))] else "after-replace-other-kind")
             f.append("cq-step:" + phase)
@@ -2276,7 +2295,10 @@ RULE = ("each case = one generated spelling s (12 comparators, ranges, and/or/no
         "type-appropriate for a real catalog) printed with random parenthesisation/white space/literal styles; "
         "commands: toast (real ast.parse vs Lean toAst), tree (hand-built vs Sx.tree), rt (parse_query vs hand-built "
         "by the harness' renderer and by hypatia's ==), parse, exec with random names on spy indexes, run on a real "
-        "catalog, rerun (ONE parsed object - default optimisation and optimize_query=False - executed 2-3 times with "
+        "catalog (names mappings of 12 types incl. defaultdict / Counter / __missing__ / ChainMap / proxy / abc Mapping, "
+        "unchanged afterwards), 6% of the cases a CatalogQuery stream (ONE CatalogQuery object answers the same 1-2 "
+        "strings before and after catalog[name] = another index / del catalog[name] / re-adding / index_doc), "
+        "rerun (ONE parsed object - default optimisation and optimize_query=False - executed 2-3 times with "
         "different names on spy indexes and the real catalog; 60% of the cases add a spelling with >= 2 distinct Names in "
         "one comparator: a == x or a == y, a != x and a != y, any/all of lists/tuples/nested lists, ranges), "
         "2-4 token-level mutations (delete/duplicate/swap/replace/insert) of the string through the real "
